@@ -423,4 +423,7 @@ def lfn_valid(s):
         not s.endswith((' ', '.')) and
         bool(lfn_valid.regex.match(s))
     )
-lfn_valid.regex = re.compile(r"^[\w !#$%&'()@^_`{}~+.,;=[\]-]+$")
+# VFAT permits any character in a long filename except control characters and
+# the nine characters " * / : < > ? \ | (see "Microsoft FAT Specification",
+# section 7.1); \Z (not $) so that a trailing newline is not silently accepted
+lfn_valid.regex = re.compile(r'^[^\x00-\x1f"*/:<>?\\|]+\Z')
